@@ -273,6 +273,7 @@ func (in *slInst) apply(op string) bool {
 			in.height = t
 			in.cur = in.hist[t].clone()
 			in.comm = in.hist[t].clone()
+			in.base = in.hist[t].clone() // the block being built next starts from the target's state
 		}
 		in.touched = nil
 		return true
